@@ -43,6 +43,8 @@ def generate(G):
     G.ob("c10_reshape_alias", "C10", "reshape_alias", "c10::reshape_alias(s)", unwind=7, tier="quick",
          skeleton={"what": "y = x.reshape(same dims); r1 = y*w; r2 = x*v; both passes; y's gradient is r1's alone; clearing y leaves x"},
          domains="values D4")
+    hist("zero_seed_then_pass", "MulAddShare", [L([2], "Two"), L([2], "Two")], ["BackZero(0)", "BackNone(1)"], "quick",
+         "fully concrete history: an all-zero seed on the interior node, then the result with the default seed (a seeded data-dependent branch is taken concretely)")
     hist("square_twice", "Square", [L([2])], ["Back(0)", "Back(0)"], "quick", "self-product differentiated twice")
     hist("no_probe_public_api", "MulAddShare", two, ["Back(1)", "Back(0)"], "quick", "public API only (no hook probes)", probe=False)
     hist("drop_between_small", "MulAddShare", two, ["Back(1)", "DropNode(0)", "Back(1)"], "quick", "an interior handle dropped between two passes")
